@@ -43,7 +43,11 @@ def arr_end(ts, es, ids=None):
 
 
 def sym_len_intervals(prefix, n, dt, *, sorted_=True, disjoint=False, lo=0, hi=T_MAX, min_len=1,
-                      max_len=2**31 - 1):
+                      max_len=None):
+    # strax.endtime multiplies the int32 `length` by the int16 `dt` in int32: the proxies are mathematical integers,
+    # so the claim is restricted to products that fit (the region beyond is decided by C17's `endtime` obligation)
+    if max_len is None:
+        max_len = (2**31 - 1) // max(int(dt), 1)
     ts, ls = [], []
     for i in range(n):
         t = fresh_int(f"{prefix}t{i}", lo, hi)
